@@ -38,7 +38,7 @@ var solvers = []solverDef{
 	{"z3", func(t int, f string) []string { return []string{"z3", fmt.Sprintf("-T:%d", t), f} }},
 }
 
-func (o *Obligation) smt(getModel bool) string {
+func (o *Obligation) smt(getModel bool, skolem bool) string {
 	var sb strings.Builder
 	c := o.ctx
 	sb.WriteString(c.Prelude())
@@ -49,10 +49,15 @@ func (o *Obligation) smt(getModel bool) string {
 	if o.IsCover {
 		sb.WriteString(fmt.Sprintf("(assert %s)\n", o.pc))
 	} else {
-		sb.WriteString(fmt.Sprintf("(assert %s)\n", o.pc))
-		for _, l := range negatedGoal(o.goal) {
-			sb.WriteString(l)
-			sb.WriteByte('\n')
+		if skolem {
+			// (second form of the same query, tried in the portfolio: goal negated with explicit skolemisation)
+			sb.WriteString(fmt.Sprintf("(assert %s)\n", o.pc))
+			for _, l := range negatedGoal(o.goal) {
+				sb.WriteString(l)
+				sb.WriteByte('\n')
+			}
+		} else {
+			sb.WriteString(fmt.Sprintf("(assert (not (=> %s %s)))\n", o.pc, o.goal))
 		}
 	}
 	sb.WriteString("(check-sat)\n")
@@ -157,6 +162,11 @@ func seeded(seed int) solverDef {
 
 const portfolioSeeds = 6
 
+// onFile: the solver d run on another script of the same obligation.
+func onFile(d solverDef, file string) solverDef {
+	return solverDef{d.name + "/sk", func(t int, _ string) []string { return d.args(t, file) }}
+}
+
 var procSlots = make(chan struct{}, 16)
 
 // quantified: the query contains quantifiers or recursive definitions beyond the prelude's (then E-matching
@@ -206,7 +216,7 @@ func Solve(obls []*Obligation, dir string, timeoutS int, allSolvers bool, jobs i
 	first := map[string]int{}
 	dupOf := make([]int, len(obls))
 	for i, o := range obls {
-		texts[i] = o.smt(true)
+		texts[i] = o.smt(true, false)
 		if j, ok := first[texts[i]]; ok {
 			dupOf[i] = j
 		} else {
@@ -264,6 +274,16 @@ func Solve(obls []*Obligation, dir string, timeoutS int, allSolvers bool, jobs i
 					if quantified(text) {
 						for k := 1; k <= portfolioSeeds; k++ {
 							defs = append(defs, seeded(k))
+						}
+						// the same query with the goal skolemised by hand (skolem.go): some quantified goals are
+						// decided at once in one form and not at all in the other, in both directions
+						if text2 := o.smt(true, true); text2 != text {
+							file2 := filepath.Join(dir, fmt.Sprintf("o%04d_sk.smt2", i))
+							if err := os.WriteFile(file2, []byte(text2), 0o644); err == nil {
+								for _, d := range []solverDef{solvers[0], solvers[1], seeded(1), seeded(2)} {
+									defs = append(defs, onFile(d, file2))
+								}
+							}
 						}
 					}
 					pst, psolver, pout, pms, tried := portfolio(defs, timeoutS, file)
